@@ -395,7 +395,10 @@ func invocationCases(r *rand.Rand, n int) []Case {
 					if i := strings.LastIndex(b, "."); i >= 0 {
 						stem = b[:i]
 					}
-					pos = []string{pick(r, []string{b, stem, stem + ".yml", stem + ".", stem + ".txt", stem[:len(stem)/2], ".yaml", stem + ".yaml.bak", b + ".yaml"})}
+					pos = []string{pick(r, []string{b, stem, stem + ".yml", stem + ".", stem + ".txt", stem[:len(stem)/2], ".yaml", stem + ".yaml.bak", b + ".yaml",
+						// with path elements: `path.Join` cleans the pattern; what is matched must lie below the tests directory (D30)
+						"./" + stem, "x/../" + stem, "../REQUEST-920-X/" + stem, "../../../../docs/942999", "../../../../docs/942999.yaml", "../../README", "..", "../..",
+						"../../../../rules/README", stem + "/", "../../../../../outside/" + stem, "../*/" + stem})}
 				}
 			}
 			var stdinEntry [][]byte
